@@ -143,6 +143,138 @@ def case_term(case):
 
 
 # ------------------------------------------------------------------------------------------------
+# race families: small 2-thread scenarios run under EVERY single-preemption schedule (thread a runs k yield-steps, thread b runs
+# to completion, a finishes; both orders, k = 0..K) and, in the thorough tier, every double-preemption schedule
+# (a: k1 steps, b: k2 steps, a to completion, b to completion).  The post phase makes every collector current on some thread and
+# probes every callsite, so a verdict left stale by the race (a callsite stranded at `never`, an `always` that a later
+# collector rejects, a max level left too low) is seen by the quiescent oracle with the schedule as the replay.
+
+LONG = 70
+
+
+def single_preemptions(K=26):
+    out = []
+    for a, b in ((0, 1), (1, 0)):
+        for k in range(0, K + 1):
+            out.append([a] * k + [b] * LONG + [a] * LONG + [b] * LONG)
+    return out
+
+
+def double_preemptions(K=16):
+    out = []
+    for a, b in ((0, 1), (1, 0)):
+        for k1 in range(1, K + 1):
+            for k2 in range(1, K + 1):
+                out.append([a] * k1 + [b] * k2 + [a] * LONG + [b] * LONG + [a] * LONG)
+    return out
+
+
+ACC = ("level", 5)            # accepts everything, hint TRACE
+REJ_A = ("targets", 0, 5)     # rejects target `a` callsites, accepts target `b`, hint TRACE
+LOW = ("level", 2)            # WARN: rejects callsite 3 (DEBUG), hint WARN
+DYN = ("dyn", 5, 5)           # answers `sometimes`, enabled() accepts everything
+
+
+def c04_families():
+    f = [ACC, REJ_A, LOW, DYN]
+    P = "plain"
+    probe = lambda cs: [(1, ("emit", cs)), (0, ("emit", cs))]
+    fam = []
+    # first hit on T1 (its default rejects) while T0 creates an accepting collector; afterwards T0 installs it and emits
+    fam.append(("firsthit-vs-new-accepting", {
+        "n": 2, "filters": f, "pre": [(0, ("new", 0, 1, P)), (1, ("setdefault", 0))],
+        "progs": [[("new", 1, 0, P)], [("emit", 3)]],
+        "post": [(0, ("setdefault", 1)), (0, ("emit", 3)), (1, ("emit", 3)), (1, ("setdefault", 1)), (1, ("emit", 3))]}))
+    # first hit on T1 (its default accepts: `always`) while T0 creates a rejecting collector
+    fam.append(("firsthit-vs-new-rejecting", {
+        "n": 2, "filters": f, "pre": [(0, ("new", 0, 0, P)), (1, ("setdefault", 0))],
+        "progs": [[("new", 1, 1, P)], [("emit", 3)]],
+        "post": [(1, ("emit", 3)), (0, ("setdefault", 1)), (0, ("emit", 3)), (0, ("emit", 8))]}))
+    # first hit with NO collector at all while the first collector is created
+    fam.append(("firsthit-vs-first-new", {
+        "n": 2, "filters": f, "pre": [(0, ("new", 0, 0, P)), (0, ("drop", 0))],
+        "progs": [[("new", 1, 0, P)], [("emit", 3)]],
+        "post": [(1, ("setdefault", 1)), (1, ("emit", 3)), (0, ("setdefault", 1)), (0, ("emit", 3))]}))
+    fam.append(("firsthit-vs-rebuild", {
+        "n": 2, "filters": f, "pre": [(0, ("new", 0, 3, P)), (1, ("setdefault", 0))],
+        "progs": [[("rebuild",)], [("emit", 3)]], "post": probe(3) + [(0, ("setdefault", 0)), (0, ("emit", 3))]}))
+    fam.append(("firsthit-vs-drop-and-new", {
+        "n": 2, "filters": f, "pre": [(0, ("new", 0, 1, P))],
+        "progs": [[("drop", 0), ("new", 1, 0, P)], [("emit", 3)]],
+        "post": [(1, ("setdefault", 1)), (1, ("emit", 3)), (0, ("setdefault", 1)), (0, ("emit", 3))]}))
+    fam.append(("two-firsthits-same-callsite", {
+        "n": 2, "filters": f, "pre": [(0, ("new", 0, 0, P)), (0, ("setdefault", 0)), (1, ("setdefault", 0))],
+        "progs": [[("emit", 3)], [("emit", 3)]], "post": probe(3)}))
+    fam.append(("two-firsthits-different-callsites", {
+        "n": 2, "filters": f, "pre": [(0, ("new", 0, 3, P)), (0, ("setdefault", 0)), (1, ("setdefault", 0))],
+        "progs": [[("emit", 3)], [("emit", 8)]], "post": probe(3) + probe(8)}))
+    # the max level: callsite 3 is above the only collector's hint until T0's new collector raises it
+    fam.append(("new-raises-max-level", {
+        "n": 2, "filters": f, "pre": [(0, ("new", 0, 2, P)), (1, ("setdefault", 0))],
+        "progs": [[("new", 1, 0, P)], [("emit", 3), ("emit", 3)]],
+        "post": [(1, ("setdefault", 1)), (1, ("emit", 3)), (0, ("setdefault", 1)), (0, ("emit", 3))]}))
+    # cached emission against creation + drop of a rejecting collector
+    fam.append(("cached-vs-new-then-drop", {
+        "n": 2, "filters": f, "pre": [(0, ("new", 0, 0, P)), (1, ("setdefault", 0)), (1, ("emit", 3))],
+        "progs": [[("new", 1, 1, P), ("drop", 1)], [("emit", 3), ("emit", 3)]],
+        "post": probe(3) + [(0, ("rebuild",)), (1, ("emit", 3))]}))
+    # installation of the global default against an emission on a thread without a scoped default (finding F41's class)
+    fam.append(("emit-vs-set-global", {
+        "n": 2, "filters": f, "pre": [(0, ("new", 0, 0, P)), (1, ("emit", 3))],
+        "progs": [[("new", 1, 1, P), ("setglobal", 1)], [("emit", 3)]], "post": probe(3) + probe(8)}))
+    fam.append(("firsthit-vs-set-global-accepting", {
+        "n": 2, "filters": f, "pre": [(0, ("new", 0, 0, P))],
+        "progs": [[("setglobal", 0)], [("emit", 3)]], "post": probe(3)}))
+    return fam
+
+
+def c12_families():
+    f = [ACC, LOW, REJ_A, DYN, ("dyn", 1, 5), ("none",)]
+    fam = []
+    for kind in ("rlayer", "rfilter"):
+        base_pre = [(0, ("new", 0, 0, kind)), (0, ("setdefault", 0)), (1, ("setdefault", 0))]
+        # a reload against the FIRST hit of a callsite
+        fam.append(("reload-vs-firsthit-" + kind, {
+            "n": 2, "filters": f, "pre": list(base_pre),
+            "progs": [[("reload", 0, 2)], [("emit", 3)]], "post": [(1, ("emit", 3)), (0, ("emit", 3)), (0, ("emit", 8))]}))
+        # less verbose, against a cached `always`, two emissions
+        fam.append(("reload-less-verbose-" + kind, {
+            "n": 2, "filters": f, "pre": base_pre + [(1, ("emit", 3))],
+            "progs": [[("reload", 0, 2)], [("emit", 3), ("emit", 3)]], "post": [(1, ("emit", 3)), (0, ("emit", 3))]}))
+        # more verbose (the hint rises from WARN to TRACE), against a callsite stopped by the max level
+        fam.append(("reload-raises-max-" + kind, {
+            "n": 2, "filters": f[:1] + [LOW] + f[2:], "pre": [(0, ("new", 0, 1, kind)), (0, ("setdefault", 0)), (1, ("setdefault", 0)), (1, ("emit", 3))],
+            "progs": [[("reload", 0, 0)], [("emit", 3), ("emit", 3)]], "post": [(1, ("emit", 3)), (0, ("emit", 3))]}))
+        # two reloads of the same cell racing
+        fam.append(("two-reloads-" + kind, {
+            "n": 2, "filters": f, "pre": base_pre + [(1, ("emit", 3))],
+            "progs": [[("reload", 0, 2)], [("reload", 0, 3)]], "post": [(1, ("emit", 3)), (0, ("emit", 3)), (0, ("reload", 0, 0)), (1, ("emit", 3))]}))
+        # a reload racing with the drop of its collector
+        fam.append(("reload-vs-drop-" + kind, {
+            "n": 2, "filters": f, "pre": [(0, ("new", 0, 0, kind)), (0, ("new", 1, 0, "plain")), (1, ("setdefault", 1)), (1, ("emit", 3))],
+            "progs": [[("reload", 0, 2)], [("drop", 0)]], "post": [(1, ("emit", 3)), (0, ("reload", 0, 1)), (1, ("emit", 3))]}))
+    # `sometimes` values: dyn -> dyn with a lower threshold
+    fam.append(("reload-dyn-dyn", {
+        "n": 2, "filters": f, "pre": [(0, ("new", 0, 3, "rfilter")), (0, ("setdefault", 0)), (1, ("setdefault", 0)), (1, ("emit", 3))],
+        "progs": [[("reload", 0, 4)], [("emit", 3), ("emit", 3)]], "post": [(1, ("emit", 3)), (0, ("emit", 3))]}))
+    return fam
+
+
+def family_cases(families, rng, thorough, quick_double=40):
+    """every single-preemption schedule of every family; double preemptions: all (thorough) or a sample (quick)"""
+    cases = []
+    singles = single_preemptions()
+    doubles = double_preemptions()
+    for name, base in families:
+        for s in singles:
+            cases.append(dict(base, sched=s, family=name))
+        ds = doubles if thorough else rng.sample(doubles, quick_double)
+        for s in ds:
+            cases.append(dict(base, sched=s, family=name))
+    return cases
+
+
+# ------------------------------------------------------------------------------------------------
 # implementation
 
 def parse_impl(rc, out):
@@ -191,7 +323,14 @@ def run_impl(ctx, binpath, cases, tag):
         return parse_impl(rc, out)
 
     with ThreadPoolExecutor(max_workers=max(2, vlib.NCPU // 2)) as ex:
-        return list(ex.map(one, enumerate(cases)))
+        # circuit breaker: a repository in which (nearly) every case hangs would cost 30 s per case; run a first batch,
+        # and if most of it hangs report those (each is a violation with its case as the replay) and stop
+        head = list(ex.map(one, enumerate(cases[:16])))
+        hung = sum(1 for r in head if r["hang"] is not None or r["rc"] == 124)
+        if len(head) >= 8 and hung * 2 > len(head):
+            ctx.notes.append("%s: %d of the first %d cases hung; the remaining %d cases were not run" % (tag, hung, len(head), len(cases) - len(head)))
+            return head
+        return head + list(ex.map(one, list(enumerate(cases))[16:]))
 
 
 # ------------------------------------------------------------------------------------------------
@@ -213,6 +352,31 @@ def model_eval(ctx, cases, tag, chunk=25):
             out.append({"pre": _obs(obs0), "yields": list(ys), "sched_log": [list(e) for e in lg], "finished": bool(fin),
                         "max": mx, "post": _obs(obs2)})
     return out
+
+
+def worlds_wf(ctx, rep, cases, tag):
+    """kernel-evaluate wf_tableb on every distinct world (the hypothesis WFworld of the theorems, via C04_worlds_wf)"""
+    worlds = sorted({tuple(c["filters"]) for c in cases})
+    rows_of = lambda filters: "[%s]" % "; ".join(
+        "([%s], [%s], %d)" % ("; ".join(str(spec_interest(sp, cs)) for cs in range(NCS)),
+                              "; ".join("true" if spec_enabled(sp, cs) else "false" for cs in range(NCS)), spec_hint(sp))
+        for sp in filters)
+    levels = "[%s]" % "; ".join(str(p[0]) for p in POOL)
+    terms = []
+    chunk = 60
+    for i in range(0, len(worlds), chunk):
+        terms.append(("w%d" % i, "[%s]" % "; ".join("wf_tableb %s %s" % (rows_of(w), levels) for w in worlds[i:i + chunk])))
+    bad = []
+    try:
+        res = vlib.coq_eval(ctx, REQUIRES, terms, tag=tag, shards=min(vlib.NCPU, max(1, len(terms))))
+        for i in range(0, len(worlds), chunk):
+            for w, v in zip(worlds[i:i + chunk], res["w%d" % i]):
+                if v is not True:
+                    bad.append(list(w))
+        rep.tie("worlds-satisfy-side-condition", not bad, "%d of %d distinct worlds fail wf_tableb" % (len(bad), len(worlds)), bad[:1] or None)
+    except Exception as ex:
+        rep.tie("worlds-satisfy-side-condition", False, str(ex)[:300])
+    rep.count("distinct-worlds", len(worlds))
 
 
 def diff(case, impl, model):
@@ -357,6 +521,10 @@ def oracle_case(case, impl, finding_mid_install="F41"):
         mx = obs[2]
     if any(case["progs"]) and impl["yields"] is not None:
         mx = phase1_oracle(case, impl, S, viol, flags, finding_mid_install)
+        if impl["finished"] is False:
+            # the schedule ended before every thread finished (reported by the `schedules-complete` tie): the rest ran
+            # unscheduled, the specification state after it is unknown
+            return viol, flags
     for i, ((t, op), obs) in enumerate(zip(case["post"], impl["post"])):
         check_quiescent(S, t, op, obs, mx, viol, "post %d" % i, case)
         mx = obs[2]
